@@ -277,7 +277,7 @@ def pkt_ipv4_udp_raw(rnd):
     return ipv4(rnd, u, 17, src, dst), dict(raw=payload, dport=dport, **extra)
 
 
-def sctp_large(rnd, kind=None, jumbo_len=None):
+def sctp_large(rnd, kind=None, jumbo_len=None, ppid=None):
     """well-formed but large SCTP packets: chunks made of more than a thousand parameters, jumbo DATA chunks, long SACKs"""
     kind = kind or rnd.choice(['params', 'data', 'sack'])
     if kind == 'params':
@@ -302,7 +302,7 @@ def sctp_large(rnd, kind=None, jumbo_len=None):
         if kind == 'jumbo':         # the largest chunk lengths the 16-bit field can announce, all bytes present
             data = rnd.randbytes((jumbo_len or rnd.choice([65533, 65534, 65535, 65532])) - 16)
         elif kind == 'data-coap':   # user data that is itself a CoAP message, announced with a protocol identifier naming CoAP's port
-            body = body[:8] + struct.pack('!I', rnd.choice([5683, 5683, 132, 17]))
+            body = body[:8] + struct.pack('!I', rnd.choice([5683, 5683, 132, 17, rnd.randrange(0, 80)]) if ppid is None else ppid)
             data = coap(rnd, payload=rnd.randbytes(rnd.randint(1, 9)))[0]
         else:
             data = rnd.randbytes(rnd.choice([2000, 3001]))
